@@ -19,6 +19,7 @@ TS_NONCANON = ['X lag(n=0)', 'Y lag(n=01)', 'Z\n']
 TYPES = ['->', '--', '<>', 'oo', 'o>', 'o-']
 VTYPES = ['unspecified', 'continuous', 'binary', 'multiclass', 'ordinal']
 METAS = [{}, {}, {}, {'k': 1}, {'color': 'red', 'w': [1, 2]}, {'a': {'b': [1, {'c': None}]}}, {'time_lag': 5},
+         {'time_lag': -1, 'variable_name': 'Y', 'u': 2},
          {'variable_name': 'Q', 'z': True}, {'é': 'ü'}, {'none': None, 'k': 0}, {'z': None, 'f': False, 'e': ''}]
 
 
@@ -122,7 +123,10 @@ class Gen:
     def endpoint(self, name):
         """sometimes pass a Node object instead of the identifier"""
         if self.r.random() < 0.1:
-            return {'id': name, 'vt': self.r.choice(VTYPES), 'meta': self.meta()}
+            e = {'id': name, 'vt': self.r.choice(VTYPES), 'meta': self.meta()}
+            if self.r.random() < 0.4:
+                e['plain'] = True           # a base-class Node object, also for the time-series graph
+            return e
         return name
 
     # -- single operations ---------------------------------------------------------------------------
